@@ -367,6 +367,10 @@ def run(fx, tier):
     if 'R-OWN' not in v.rules:
         v.rule('R-OWN', 'connack_property reads mqtt_ctx::ca_props, stored only by connect_op::on_connack before the connect can complete or continue')
     capability_source(fx, v, 'C07')
+    # resend() stands back while a write is in flight: that write must come back as try_again (never operation_aborted on
+    # an open client), or the new connection's Receive Maximum is never applied (shared with C02; seed C07-f)
+    from c02 import stream_loss_rules
+    stream_loss_rules(fx, v, 'C07')
     v.expect_min('R-OWN', 20, 'writers + callers × TUs')
     v.expect_min('R-DOM', 30, 'do_write/throttled_op_done/resend shape × TUs')
     v.expect_min('R-FLOW', 60, 'send and free sites on paths')
